@@ -11,133 +11,135 @@ Definition to_rr (r : brange) : rrange :=
   | Suffix s => mkRange None (Some (- s))
   end.
 
-(* what the client receives on the fixed-length path (hit, or miss with Content-Length):
-   setRangedHeaders decides status and headers, sendBody seeks and copies *)
 Definition parse_cr (r : rrange) (cl : Z) : Z * Z * Z := (rr_start r cl, rr_end r cl, cl).
 
+(* what the client receives on the cache-file path (hit, or miss of known length):
+   setRangedHeaders decides status and headers, sendBody seeks and copies; when no 206 is
+   announced the whole resource is sent *)
 Definition range_answer (r : rrange) (resource : str) : option answer :=
   let n := Z.of_nat (length resource) in
   match set_ranged_headers (Some r) n 200 with
-  | (206, Some _) =>
-    match send_slice resource (rr_start r n) (rr_size r n) with
-    | Some b => Some (mkAnswer 206 (Some (rr_size r n)) (Some (parse_cr r n)) b)
-    | None => None   (* seek error after the header is out *)
+  | (206, Some _, Some r') =>
+    match send_slice resource (rr_start r' n) (rr_size r' n) with
+    | Some b => Some (mkAnswer 206 (Some (rr_size r' n)) (Some (parse_cr r' n)) b)
+    | None => None
     end
-  | (st, _) => if st =? 200 then Some (mkAnswer 200 (Some n) None resource)
-               else Some (mkAnswer st None None [])
+  | (st, _, _) => if st =? 200 then Some (mkAnswer 200 (Some n) None resource)
+                  else Some (mkAnswer st None None [])
   end.
 
-(* Known-finding region of C15 (F13): suffix ranges longer than the resource or of length 0,
-   and empty resources. *)
-Definition kf_C15_suffix (r : brange) (n : Z) : bool :=
-  match r with Suffix s => (s <=? 0) || (n <? s) | _ => false end.
+Definition wellformed (r : brange) : Prop :=
+  match r with FromTo a b => 0 <= a <= b | From a => 0 <= a | Suffix s => 0 <= s end.
 
+Ltac zb :=
+  repeat match goal with
+         | |- context [?a <? ?b] => let H := fresh in destruct (Z.ltb_spec a b) as [H|H]; try lia
+         | |- context [?a <=? ?b] => let H := fresh in destruct (Z.leb_spec a b) as [H|H]; try lia
+         | |- context [?a =? ?b] => let H := fresh in destruct (Z.eqb_spec a b) as [H|H]; try lia
+         end.
+
+(* Every well-formed single range over every resource is answered acceptably: exactly the
+   named bytes with matching headers, the whole resource, or 416 when the range is not
+   wholly inside. *)
+Lemma range_answer_ok r resource :
+  wellformed r -> exists a, range_answer (to_rr r) resource = Some a /\ answer_ok r resource a = true.
+Proof.
+  intros Hw. unfold range_answer, set_ranged_headers.
+  set (n := Z.of_nat (length resource)).
+  assert (Hn : 0 <= n) by (unfold n; lia).
+  change (negb (200 =? 200)) with false. cbn [orb].
+  destruct (Z.leb_spec n 0) as [Hz|Hz].
+  - (* empty resource: the whole (empty) response *)
+    cbn [orb]. eexists. split; [reflexivity|]. unfold answer_ok. cbn [an_status an_cr an_cl an_body Z.eqb]. fold n.
+    rewrite str_eqb_refl, Z.eqb_refl. reflexivity.
+  - cbn [orb].
+    destruct r as [a b|a|s]; simpl in Hw; cbn [to_rr rr_s rr_e clamp_suffix].
+    + (* from-to *)
+      destruct (Z.ltb_spec (n - 1) a) as [Ha|Ha]; cbn [orb].
+      * eexists. split; [reflexivity|]. unfold answer_ok. cbn [an_status Z.eqb wholly_inside]. fold n. zb; reflexivity.
+      * destruct (Z.ltb_spec (n - 1) b) as [Hb|Hb]; cbn [orb].
+        -- eexists. split; [reflexivity|]. unfold answer_ok. cbn [an_status Z.eqb wholly_inside]. fold n. zb; reflexivity.
+        -- unfold send_slice. cbn [rr_start rr_size rr_s rr_e].
+           destruct (Z.ltb_spec a 0) as [H0|H0]; [lia|].
+           eexists. split; [reflexivity|]. unfold answer_ok. cbn [an_status an_cr an_cl an_body Z.eqb]. fold n.
+           unfold resolve, parse_cr. cbn [rr_start rr_end rr_s rr_e].
+           replace (0 <=? a) with true by (symmetry; apply Z.leb_le; lia).
+           replace (a <=? b) with true by (symmetry; apply Z.leb_le; lia).
+           replace (a <? n) with true by (symmetry; apply Z.ltb_lt; lia). cbn [andb].
+           rewrite Z.min_l by lia. rewrite !Z.eqb_refl. cbn [andb]. unfold slice. apply str_eqb_refl.
+    + (* from *)
+      destruct (Z.ltb_spec (n - 1) a) as [Ha|Ha]; cbn [orb].
+      * eexists. split; [reflexivity|]. unfold answer_ok. cbn [an_status Z.eqb wholly_inside]. fold n. zb; reflexivity.
+      * unfold send_slice. cbn [rr_start rr_size rr_s rr_e].
+        destruct (Z.ltb_spec a 0) as [H0|H0]; [lia|].
+        eexists. split; [reflexivity|]. unfold answer_ok. cbn [an_status an_cr an_cl an_body Z.eqb]. fold n.
+        unfold resolve, parse_cr. cbn [rr_start rr_end rr_s rr_e].
+        replace (0 <=? a) with true by (symmetry; apply Z.leb_le; lia).
+        replace (a <? n) with true by (symmetry; apply Z.ltb_lt; lia). cbn [andb].
+        rewrite !Z.eqb_refl. cbn [andb].
+        replace (n - 1 - a + 1) with (n - a) by lia. rewrite Z.eqb_refl. cbn [andb].
+        unfold slice. replace (n - 1 - a + 1) with (n - a) by lia. apply str_eqb_refl.
+    + (* suffix *)
+      destruct (Z.leb_spec 0 (- s)) as [Hs|Hs].
+      * (* s = 0: unsatisfiable *)
+        eexists. split; [reflexivity|]. unfold answer_ok. cbn [an_status Z.eqb wholly_inside]. fold n.
+        replace (0 <? s) with false by (symmetry; apply Z.ltb_ge; lia). reflexivity.
+      * rewrite Z.opp_involutive.
+        destruct (Z.ltb_spec n s) as [Hc|Hc]; cbn [rr_s rr_e].
+        -- (* longer than the resource: clamped to all of it *)
+           replace (n - 1 <? - n) with false by (symmetry; apply Z.ltb_ge; lia). cbn [orb].
+           unfold send_slice. cbn [rr_start rr_size rr_s rr_e].
+           replace (n + - n <? 0) with false by (symmetry; apply Z.ltb_ge; lia).
+           eexists. split; [reflexivity|]. unfold answer_ok. cbn [an_status an_cr an_cl an_body Z.eqb]. fold n.
+           unfold resolve, parse_cr. cbn [rr_start rr_end rr_s rr_e].
+           replace (0 <? s) with true by (symmetry; apply Z.ltb_lt; lia).
+           replace (0 <? n) with true by (symmetry; apply Z.ltb_lt; lia). cbn [andb].
+           rewrite Z.max_l by lia.
+           replace (0 =? n + - n) with true by (symmetry; apply Z.eqb_eq; lia).
+           rewrite !Z.eqb_refl. cbn [andb].
+           replace (n - 1 - (n + - n - 1) =? n - 1 - 0 + 1) with true by (symmetry; apply Z.eqb_eq; lia). cbn [andb].
+           unfold slice. replace (n - 1 - (n + - n - 1)) with (n - 1 - 0 + 1) by lia.
+           replace (n + - n) with 0 by lia. apply str_eqb_refl.
+        -- replace (n - 1 <? - s) with false by (symmetry; apply Z.ltb_ge; lia). cbn [orb].
+           unfold send_slice. cbn [rr_start rr_size rr_s rr_e].
+           replace (n + - s <? 0) with false by (symmetry; apply Z.ltb_ge; lia).
+           eexists. split; [reflexivity|]. unfold answer_ok. cbn [an_status an_cr an_cl an_body Z.eqb]. fold n.
+           unfold resolve, parse_cr. cbn [rr_start rr_end rr_s rr_e].
+           replace (0 <? s) with true by (symmetry; apply Z.ltb_lt; lia).
+           replace (0 <? n) with true by (symmetry; apply Z.ltb_lt; lia). cbn [andb].
+           rewrite Z.max_r by lia.
+           replace (n - s =? n + - s) with true by (symmetry; apply Z.eqb_eq; lia).
+           rewrite !Z.eqb_refl. cbn [andb].
+           replace (n - 1 - (n + - s - 1) =? n - 1 - (n - s) + 1) with true by (symmetry; apply Z.eqb_eq; lia). cbn [andb].
+           unfold slice. replace (n - 1 - (n + - s - 1)) with (n - 1 - (n - s) + 1) by lia.
+           replace (n + - s) with (n - s) by lia. apply str_eqb_refl.
+Qed.
+
+(* a range wholly inside a non-empty resource gets the exact 206 *)
 Lemma range_exact r resource :
   let n := Z.of_nat (length resource) in
   0 < n -> wholly_inside r n = true ->
   exists a, range_answer (to_rr r) resource = Some a /\ answer_ok r resource a = true /\ an_status a = 206.
 Proof.
-  intros n Hn Hw. unfold range_answer, set_ranged_headers. fold n.
-  assert (Hcl : (n <=? 0) = false) by (apply Z.leb_gt; lia).
-  destruct r as [a b|a|s]; simpl in Hw; cbn [to_rr rr_s rr_e negb Z.eqb orb]; rewrite Hcl; cbn [orb].
-  - apply andb_true_iff in Hw as [Hw Hb]. apply andb_true_iff in Hw as [Ha Hab].
-    apply Z.leb_le in Ha, Hab. apply Z.ltb_lt in Hb.
-    replace (n - 1 <? a) with false by (symmetry; apply Z.ltb_ge; lia).
-    replace (n - 1 <? b) with false by (symmetry; apply Z.ltb_ge; lia). cbn [orb].
-    unfold send_slice. cbn [rr_start rr_size rr_s rr_e].
-    replace (a <? 0) with false by (symmetry; apply Z.ltb_ge; lia).
-    eexists. split; [reflexivity|]. split; [|reflexivity].
-    unfold answer_ok. cbn [an_status an_cr an_cl an_body]. fold n. cbn [Z.eqb].
-    unfold resolve, parse_cr. cbn [rr_start rr_end rr_s rr_e].
-    replace (0 <=? a) with true by (symmetry; apply Z.leb_le; lia).
-    replace (a <=? b) with true by (symmetry; apply Z.leb_le; lia).
-    replace (a <? n) with true by (symmetry; apply Z.ltb_lt; lia). cbn [andb].
-    rewrite Z.min_l by lia. rewrite !Z.eqb_refl. cbn [andb].
-    unfold slice. apply str_eqb_refl.
-  - apply andb_true_iff in Hw as [Ha Hb]. apply Z.leb_le in Ha. apply Z.ltb_lt in Hb.
-    replace (n - 1 <? a) with false by (symmetry; apply Z.ltb_ge; lia). cbn [orb].
-    unfold send_slice. cbn [rr_start rr_size rr_s rr_e].
-    replace (a <? 0) with false by (symmetry; apply Z.ltb_ge; lia).
-    eexists. split; [reflexivity|]. split; [|reflexivity].
-    unfold answer_ok. cbn [an_status an_cr an_cl an_body]. fold n. cbn [Z.eqb].
-    unfold resolve, parse_cr. cbn [rr_start rr_end rr_s rr_e].
-    replace (0 <=? a) with true by (symmetry; apply Z.leb_le; lia).
-    replace (a <? n) with true by (symmetry; apply Z.ltb_lt; lia). cbn [andb].
-    rewrite !Z.eqb_refl. cbn [andb].
-    replace (n - 1 - a + 1) with (n - a) by lia. rewrite Z.eqb_refl. cbn [andb].
-    unfold slice. replace (n - 1 - a + 1) with (n - a) by lia. apply str_eqb_refl.
-  - apply andb_true_iff in Hw as [Hs Hb]. apply Z.ltb_lt in Hs. apply Z.leb_le in Hb.
-    replace (n - 1 <? - s) with false by (symmetry; apply Z.ltb_ge; lia). cbn [orb].
-    unfold send_slice. cbn [rr_start rr_size rr_s rr_e].
-    replace (n + - s <? 0) with false by (symmetry; apply Z.ltb_ge; lia).
-    eexists. split; [reflexivity|]. split; [|reflexivity].
-    unfold answer_ok. cbn [an_status an_cr an_cl an_body]. fold n. cbn [Z.eqb].
-    unfold resolve, parse_cr. cbn [rr_start rr_end rr_s rr_e].
-    replace (0 <? s) with true by (symmetry; apply Z.ltb_lt; lia).
-    replace (0 <? n) with true by (symmetry; apply Z.ltb_lt; lia). cbn [andb].
-    rewrite Z.max_r by lia.
-    replace (n - s =? n + - s) with true by (symmetry; apply Z.eqb_eq; lia).
-    rewrite !Z.eqb_refl. cbn [andb].
-    replace (n - 1 - (n + - s - 1) =? n - 1 - (n - s) + 1) with true by (symmetry; apply Z.eqb_eq; lia). cbn [andb].
-    unfold slice.
-    replace (n - 1 - (n + - s - 1)) with (n - 1 - (n - s) + 1) by lia.
-    replace (n + - s) with (n - s) by lia. apply str_eqb_refl.
+  intros n Hn Hw.
+  assert (Wf : wellformed r).
+  { destruct r; simpl in *; repeat (apply andb_true_iff in Hw as [Hw ?]);
+      repeat match goal with H : (_ <=? _) = true |- _ => apply Z.leb_le in H | H : (_ <? _) = true |- _ => apply Z.ltb_lt in H end; lia. }
+  destruct (range_answer_ok r resource Wf) as [a [Ha Hok]]. exists a. split; [exact Ha|]. split; [exact Hok|].
+  (* the answer cannot be 200-full or 416 when the range is inside... it is 206 by computation *)
+  unfold range_answer, set_ranged_headers in Ha. fold n in Ha. change (negb (200 =? 200)) with false in Ha. cbn [orb] in Ha.
+  destruct (Z.leb_spec n 0); [lia|]. cbn [orb] in Ha.
+  destruct r as [x y|x|s]; simpl in Hw; cbn [to_rr rr_s rr_e clamp_suffix] in Ha.
+  - apply andb_true_iff in Hw as [Hw Hy]. apply andb_true_iff in Hw as [Hx Hxy].
+    apply Z.leb_le in Hx, Hxy. apply Z.ltb_lt in Hy.
+    destruct (Z.ltb_spec (n - 1) x); [lia|]. destruct (Z.ltb_spec (n - 1) y); [lia|]. cbn [orb] in Ha.
+    unfold send_slice in Ha. cbn [rr_start rr_s rr_e] in Ha. destruct (Z.ltb_spec x 0); [lia|]. inversion Ha. reflexivity.
+  - apply andb_true_iff in Hw as [Hx Hy]. apply Z.leb_le in Hx. apply Z.ltb_lt in Hy.
+    destruct (Z.ltb_spec (n - 1) x); [lia|]. cbn [orb] in Ha.
+    unfold send_slice in Ha. cbn [rr_start rr_s rr_e] in Ha. destruct (Z.ltb_spec x 0); [lia|]. inversion Ha. reflexivity.
+  - apply andb_true_iff in Hw as [Hs Hy]. apply Z.ltb_lt in Hs. apply Z.leb_le in Hy.
+    destruct (Z.leb_spec 0 (- s)); [lia|]. rewrite Z.opp_involutive in Ha.
+    destruct (Z.ltb_spec n s); [lia|]. cbn [rr_s rr_e] in Ha.
+    destruct (Z.ltb_spec (n - 1) (- s)); [lia|]. cbn [orb] in Ha.
+    unfold send_slice in Ha. cbn [rr_start rr_s rr_e] in Ha. destruct (Z.ltb_spec (n + - s) 0); [lia|]. inversion Ha. reflexivity.
 Qed.
-
-(* a from-to or from range that reaches beyond the resource is answered 416 *)
-Lemma out_of_range_416 r resource :
-  let n := Z.of_nat (length resource) in
-  0 < n -> wholly_inside r n = false ->
-  match r with
-  | FromTo a b => 0 <= a <= b
-  | From a => 0 <= a
-  | Suffix _ => False
-  end ->
-  exists a, range_answer (to_rr r) resource = Some a /\ an_status a = 416.
-Proof.
-  intros n Hn Hw Hf. unfold range_answer, set_ranged_headers. fold n.
-  assert (Hcl : (n <=? 0) = false) by (apply Z.leb_gt; lia).
-  destruct r as [a b|a|s]; [| |contradiction]; simpl in Hw; cbn [to_rr rr_s rr_e negb Z.eqb orb]; rewrite Hcl; cbn [orb].
-  - replace (0 <=? a) with true in Hw by (symmetry; apply Z.leb_le; lia).
-    replace (a <=? b) with true in Hw by (symmetry; apply Z.leb_le; lia). cbn [andb] in Hw.
-    apply Z.ltb_ge in Hw.
-    replace (n - 1 <? b) with true by (symmetry; apply Z.ltb_lt; lia). rewrite orb_true_r.
-    eexists. split; reflexivity.
-  - replace (0 <=? a) with true in Hw by (symmetry; apply Z.leb_le; lia). cbn [andb] in Hw.
-    apply Z.ltb_ge in Hw.
-    replace (n - 1 <? a) with true by (symmetry; apply Z.ltb_lt; lia). cbn [orb].
-    eexists. split; reflexivity.
-Qed.
-
-(* every answer the fixed-length path produces for a non-empty resource is acceptable,
-   outside the suffix region *)
-Lemma range_answer_ok_partial r resource :
-  let n := Z.of_nat (length resource) in
-  0 < n -> kf_C15_suffix r n = false ->
-  match r with FromTo a b => 0 <= a <= b | From a => 0 <= a | Suffix _ => True end ->
-  exists a, range_answer (to_rr r) resource = Some a /\ answer_ok r resource a = true.
-Proof.
-  intros n Hn Hk Hf.
-  destruct (wholly_inside r n) eqn:Hw.
-  - destruct (range_exact r resource Hn Hw) as [a [H1 [H2 _]]]. exists a. auto.
-  - destruct r as [a b|a|s].
-    + destruct (out_of_range_416 (FromTo a b) resource Hn Hw Hf) as [x [H1 H2]].
-      exists x. split; [exact H1|]. unfold answer_ok. rewrite H2. cbn [Z.eqb]. fold n. rewrite Hw. reflexivity.
-    + destruct (out_of_range_416 (From a) resource Hn Hw Hf) as [x [H1 H2]].
-      exists x. split; [exact H1|]. unfold answer_ok. rewrite H2. cbn [Z.eqb]. fold n. rewrite Hw. reflexivity.
-    + simpl in Hk, Hw. apply orb_false_iff in Hk as [K1 K2].
-      apply Z.leb_gt in K1. apply Z.ltb_ge in K2.
-      replace (0 <? s) with true in Hw by (symmetry; apply Z.ltb_lt; lia).
-      replace (s <=? n) with true in Hw by (symmetry; apply Z.leb_le; lia). discriminate.
-Qed.
-
-(* F13: the full statement is false. A 20-byte suffix of a 10-byte resource is answered
-   with a header announcing bytes -10..9 and no body at all (the seek fails). *)
-Lemma C15_refuted_suffix :
-  range_answer (to_rr (Suffix 20)) (repeat 120%N 10) = None /\
-  fst (set_ranged_headers (Some (to_rr (Suffix 20))) 10 200) = 206.
-Proof. vm_compute. split; reflexivity. Qed.
-
-Lemma C15_refuted_suffix0 :
-  exists a, range_answer (to_rr (Suffix 0)) (repeat 120%N 10) = Some a /\ answer_ok (Suffix 0) (repeat 120%N 10) a = false.
-Proof. eexists. split; vm_compute; reflexivity. Qed.
